@@ -2123,8 +2123,9 @@ func (f *File) ReadFrom(r io.Reader) (int64, error) {
 			m, err2 := f.writeChunkAt(ch, b[:n], f.offset)
 			f.offset += int64(m)
 
-			if err == nil {
-				err = err2
+			if err2 != nil {
+				// the write failed: report it, even if this was the last (short) chunk of the source
+				return read, err2
 			}
 		}
 
